@@ -25,6 +25,20 @@ import (
 // with: only "never 'not found'" is demanded there.
 
 func c13InstallAnswers(card *chipsim.Card, cs c13Case) {
+	if cs.warnNth != 0 {
+		n := 0
+		card.ReadAnswer = func(off, ne int, data []byte, sw uint16) ([]byte, uint16) {
+			n++
+			if n != cs.warnNth || len(data) == 0 {
+				return data, sw
+			}
+			alt := append([]byte{}, data...)
+			alt[len(alt)-1] ^= 0x5A
+			alt[len(alt)/2] ^= 0xFF
+			return alt, cs.warnSW
+		}
+		return
+	}
 	if cs.emptyNth == 0 && cs.hdrLit == "" {
 		return
 	}
@@ -188,6 +202,34 @@ func c13AnswerQuick(seed int64) []c13Case {
 		core := cs.emptyNth == 1 && cs.emptySW == 0 && cs.maxRd == 256 && cs.beh == 0
 		if core || c13Mix(seed+2, i)%40 == 0 {
 			out = append(out, cs)
+		}
+	}
+	return out
+}
+
+// c13WarnCases: the n-th READ BINARY delivers altered data of the right length under a status
+// word that is neither 9000 nor 6282 (the two the reader takes as "data delivered"): whatever
+// the status says, those bytes are not the file's, so the result is an error or the exact file.
+func c13WarnCases() []c13Case {
+	var out []c13Case
+	for _, sw := range []uint16{0x6281, 0x6283, 0x6284, 0x6200, 0x6300, 0x63C2, 0x6400, 0x6581, 0x6100, 0x9001} {
+		for nth := 1; nth <= 3; nth++ {
+			for _, total := range []int{40, 300, 1000} {
+				for ti, t := range []struct {
+					maxRd int
+					beh   string
+				}{{256, "all"}, {256, "cap100"}} {
+					for sm := 0; sm < 3; sm++ {
+						if (int(sw)+nth+total+ti+sm)%2 == 1 && !(sw == 0x6281 && sm == 0) {
+							continue // half of the product; 6281 in the clear always
+						}
+						cs := c13Case{f: c13File{tagLen: 1, lenForm: 2, total: total}, beh: c13BehaviourIndex(t.beh), maxRd: t.maxRd, sm: sm, warnNth: nth, warnSW: sw}
+						if _, _, ok := cs.f.headerLen(); ok {
+							out = append(out, cs)
+						}
+					}
+				}
+			}
 		}
 	}
 	return out
